@@ -1575,6 +1575,16 @@ static void compile_expr(CG *cg, ASTNode *node) {
                 default:
                     cg_error(cg, node->line, "unsupported unary operator %d", op);
             }
+        } else if (argc == 2 && (op == TOKEN_AND || op == TOKEN_OR)) {
+            /* Short-circuit: the right operand is evaluated only when the left does not decide.
+             * a; DUP; JMP_FALSE/JMP_TRUE end; POP; b; end: */
+            compile_expr(cg, args[0]);
+            emit_op(cg, OP_DUP);
+            uint32_t sc_instr = cg->code_size;
+            uint32_t sc_off = emit_op(cg, op == TOKEN_AND ? OP_JMP_FALSE : OP_JMP_TRUE, (int32_t)0);
+            emit_op(cg, OP_POP);
+            compile_expr(cg, args[1]);
+            patch_jump(cg, sc_off + 1, sc_instr, cg->code_size);
         } else if (argc == 2) {
             /* Binary operators */
             compile_expr(cg, args[0]);
